@@ -1,8 +1,26 @@
 import GceTcb.Base.Line
-/- Driver handler for stream `c17` (stub: replaced when the property's model lands). -/
+import GceTcb.Model.Policy
+import GceTcb.Drive.PolicyLine
+/- Driver handler for stream `c17` (policy derivation). -/
 namespace GceTcb.Drive.C17
-open GceTcb
+open GceTcb GceTcb.Policy GceTcb.Drive.PolicyLine
 
-def handle (_f : Fields) : String := "unimplemented"
+/-- the default policy SevPolicy builds without a base; its guest-policy value (computed by
+    go-sev-guest's SnpPolicyToBytes) is observed from the implementation and passed as `dflt=` -/
+def dfltSev (guestPolicy : Nat) : SevPolicy Unit := ⟨guestPolicy, [], 0, [], [], ()⟩
+
+def handle (f : Fields) : String :=
+  match f.get "op" with
+  | "sev" =>
+    let o : SevPolicyOptions Unit := ⟨parseSevPolicy (f.get "base"), f.nat "vmsas", f.bool "ow", f.bool "allow"⟩
+    match sevPolicy (parsePem (f.get "pem")) (dfltSev (f.nat "dflt")) (parseSev (f.get "e")) o with
+    | none => "reject"
+    | some q => s!"ok policy={q.policy} meas={hexEncode q.measurement} minsvn={q.minimumGuestSvn} id={showHexList q.trustedIdKeys} auth={showHexList q.trustedAuthorKeys}"
+  | "tdx" =>
+    let o : TdxPolicyOptions Unit Unit := ⟨parseTdxBase (f.get "base"), f.int "ram", f.bool "ow"⟩
+    match tdxPolicy () () (parseRows (f.get "rows")) o with
+    | none => "reject"
+    | some q => s!"ok mrtds={showHexList ((q.body.map (·.anyMrTd)).getD [])}"
+  | _ => "bad-op"
 
 end GceTcb.Drive.C17
